@@ -96,8 +96,18 @@ def cases(tier, seed):
         for fmt in ("csv", "tsv", "json"):
             for n in range(1, max_sub + 1):
                 for idxs in itertools.product(range(4), repeat=n):
-                    for term in ("lf", "own"):
+                    for term in ("lf", "own") + (("unterminated-last",) if n <= 2 else ()):
                         yield {"kind": "recfile", "cls": cls, "fmt": fmt, "idxs": list(idxs), "term": term}
+    # the same path read again after it was rewritten with the same total size but other line boundaries (save over an opened file)
+    for cls in REC_CLASSES:
+        for fmt in ("csv", "json"):
+            for hist in ([[0, 1], [1, 0]], [[0, 2, 3], [3, 2, 0], [2, 0, 3]]):
+                yield {"kind": "rec-rewrite", "cls": cls, "fmt": fmt, "history": hist}
+    # JSON strings that only an escaping encoder keeps on one line / encodable: lone surrogates, U+2028, U+2029, U+0085, other separators
+    for sp in ("\ud83d", "x\u2028y\u2029z", "\u0085", "\x0b\x0c\x1c\x1d\x1e", "\udc00\ud800"):
+        yield {"kind": "json", "a": sp, "b": {sp: [sp]}}
+        for cls in U.MUTABLE_RECORD:
+            yield {"kind": "json-file", "cls": cls, "s": sp}
     for cls in U.MUTABLE_RECORD:
         for fmt in ("csv", "json"):
             for n in range(0, (2 if quick else 3) + 1):
@@ -214,8 +224,8 @@ def _run_json(case):
     sv, e = U.call(r.save)
     if e is not None:
         return _fail("records/json-save-exception", "no exception", e)
-    if "\n" in sv or "\r" in sv:
-        return _fail("records/json-single-line", "no line break", sv)
+    if "\n" in sv or "\r" in sv or len(sv.splitlines()) != 1:
+        return _fail("records/json-single-line", "no line break", ascii(sv))
     back, e = U.call(lambda: L.JR.load(sv))
     if e is not None or back != r:
         return _fail("records/json-roundtrip", r, (back, e))
@@ -360,7 +370,9 @@ def _seq_diff(f, model):
 def _run_recfile(case):
     rc, recs, lines = _pool(case["fmt"])
     model = [recs[i] for i in case["idxs"]]
-    if case["term"] == "lf":
+    if case["term"] == "unterminated-last":
+        text = "\n".join(lines[i] for i in case["idxs"])
+    elif case["term"] == "lf":
         text = "".join(lines[i] + "\n" for i in case["idxs"])
     else:
         # terminator produced by save() itself (CSV: CRLF), JSON has none -> LF
@@ -436,8 +448,50 @@ def _run_mutrec(case):
     return dict(OK, scenario="records/mutable-edit-save-reopen", trivial=len(case["ops"]) == 0)
 
 
+def _run_rec_rewrite(case):
+    rc, recs, lines = _pool(case["fmt"])
+    with U.Scratch() as sc:
+        for step, idxs in enumerate(case["history"]):
+            text = "".join(lines[i] + "\n" for i in idxs)
+            p = sc.write("same.txt", text.encode("utf-8"))
+            try:
+                with _open_rec(case["cls"], p, rc) as f:
+                    bad = _seq_diff(f, [recs[i] for i in idxs])
+            except Exception as ex:  # noqa
+                bad = ("exception", "no exception", "%s: %s" % (type(ex).__name__, ex))
+            if bad:
+                return _fail("records/same-path-rewritten", {"step": step, "records": idxs, bad[0]: bad[1]}, bad[2])
+    return dict(OK, scenario="records/same-path-rewritten")
+
+
+def _run_json_file(case):
+    L = U.lib()
+    r0, r1 = L.JR("plain", 1), L.JR(case["s"], {case["s"]: [case["s"], 2]})
+    with U.Scratch() as sc:
+        p = sc.write("recs.txt", (r0.save() + "\n").encode("utf-8"))
+        out = sc.path("out.txt")
+        try:
+            with _open_rec(case["cls"], p, L.JR) as f:
+                f.append(r1)
+                f.insert(0, r1)
+                f.save(out)
+            for cls2 in REC_CLASSES:
+                with _open_rec(cls2, out, L.JR) as g:
+                    bad = _seq_diff(g, [r1, r0, r1])
+                if bad:
+                    return _fail("records/json-special-strings-file-" + bad[0], {"class": cls2, "exp": ascii(bad[1])}, ascii(bad[2]))
+        except Exception as ex:  # noqa
+            return _fail("records/json-special-strings-file", "edit, save and reopen work for any string",
+                         "%s: %s" % (type(ex).__name__, ascii(str(ex))))
+    return dict(OK, scenario="records/json-special-strings-file")
+
+
 def run_case(case):
     k = case["kind"]
+    if k == "rec-rewrite":
+        return _run_rec_rewrite(case)
+    if k == "json-file":
+        return _run_json_file(case)
     if k == "csv":
         return _run_csv(case)
     if k == "json":
